@@ -14,6 +14,8 @@ pub enum FaultKind {
     Dup,
     Zero,
     Garbage,
+    /// not a storage fault: a conforming peer wrote parts at (and just beyond) the edge of their type
+    Boundary,
 }
 
 pub const ALL_KINDS: &[FaultKind] = &[
@@ -38,6 +40,7 @@ impl FaultKind {
             FaultKind::Dup => "F-dup",
             FaultKind::Zero => "F-zero",
             FaultKind::Garbage => "F-garbage",
+            FaultKind::Boundary => "P-boundary",
         }
     }
 }
@@ -243,7 +246,7 @@ pub fn apply(kind: FaultKind, rec: &mut Vec<u8>, marks: &[Mark], rng: &mut Rng) 
         FaultKind::Splice => splice(rec, rng),
         FaultKind::Dup => dup(rec, rng),
         FaultKind::Zero => zero(rec, rng),
-        FaultKind::Stale | FaultKind::Garbage => None, // applied at segment level by the engine
+        FaultKind::Stale | FaultKind::Garbage | FaultKind::Boundary => None, // applied by the engine
     };
     if *rec == before {
         return None;
